@@ -73,7 +73,7 @@ def run(chk):
     fs = [F.script_from_behaviour(b, "sim%d" % i, rnd) for i, b in enumerate(behs)] + [F.random_script("rnd%d" % i, rnd) for i in range(2000 if thorough else 40)] + [dict(s, id=s["id"] + "-%d" % rep) for rep in range(3) for s in F.recovery_stories()]
     n1, e1, rej1, kinds, stop_ms, st1 = F.run_scripts(chk, fs, 2, "c18")
     c02.handle_rejections(chk, rej1, 2, False, cov)
-    hs = [H.random_script("B-rnd%d" % i, rnd, "B") for i in range(1600 if thorough else 40)]
+    hs = [H.random_script("B-rnd%d" % i, rnd, "B") for i in range(1600 if thorough else 40)] + H.stop_stories("B")
     n2, e2, rej2, k2, st2, hung = H.run_scripts(chk, hs, "B", "c18")
     c03.handle_rejections(chk, rej2, "B", cov)
     # end to end: every upstream state x load x moment of the stop
@@ -85,7 +85,7 @@ def run(chk):
     cov.update({"traces_validated_against_impl": n1 + n2 + n3, "trace_events": e1 + e2 + e3, "evaluations": n1 + n2 + n3,
                 "distinct_nontrivial": len({json.dumps(s, sort_keys=True) for s in fs + hs + scripts}),
                 "max_forwarder_stop_to_finished_ms": max(stop_ms + [0]), "forwarder_or_buffer_hung_runs": hung,
-                "rule": "forwarding client: stop at every trace position of TLC-derived and random fault scripts (a run that does not finish is a HUNG event no action explains); hybrid buffer: Destroy at scripted positions; end to end: upstream state at the stop {healthy, refusing, resetting, accepting but never answering, late ACK} x load {idle, open chunk, full 2-chunk memory window, pending ACKs} x stop 0/25/120 ms after the last client closed; bound 4 s with timeouts of 20-400 ms; after every stop every record read is acknowledged or in a chunk file",
+                "rule": "forwarding client: stop at every trace position of TLC-derived and random fault scripts (a run that does not finish is a HUNG event no action explains); hybrid buffer: Destroy at scripted positions, and with a consumer that is not reading (it waits for the InputClosed signal) for every fill level from empty to window + queue + 2; end to end: upstream state at the stop {healthy, refusing, resetting, accepting but never answering, late ACK} x load {idle, open chunk, full 2-chunk memory window, pending ACKs} x stop 0/25/120 ms after the last client closed; bound 4 s with timeouts of 20-400 ms; after every stop every record read is acknowledged or in a chunk file",
                 "samples": [scripts[0]]})
     chk.assumptions += ["'bounded time' is decided as: no spec step after the stop waits for a timer (StopTerminates without timer fairness) and, on the code, a generous wall-clock bound on scaled timeouts; 'blocked mid-write' is provoked at the connection level (drv/fc: a peer that stops reading, 32 MB chunk) and end to end (upstream that never reads, 12 MB of records, wide ACK window: the counters show no completed send at the stop)",
                         "a rejection is a violation only if reproduced on a re-run"]
